@@ -1390,3 +1390,102 @@ Proof.
 Qed.
 
 End StarCommit.
+
+(* ================================================================== *)
+(* 7.8 the followers' commit index                                     *)
+(* ================================================================== *)
+
+Lemma commit_to_mono lg tc lg' :
+  RaftLog.commit_to lg tc = Ok lg' -> committed lg <= committed lg' /\ tc <= committed lg'.
+Proof.
+  unfold RaftLog.commit_to. intros H. destruct (tc <=? committed lg) eqn:E.
+  - inversion H; subst. lia.
+  - destruct (last_index lg <? tc); [discriminate|]. inversion H; subst. cbn. lia.
+Qed.
+
+Lemma log_append_committed lg ents lg' x : log_append lg ents = Ok (lg', x) -> committed lg' = committed lg.
+Proof.
+  unfold log_append. intros H. destruct ents as [|e0 t]; [inversion H; reflexivity|].
+  destruct (e_index e0 =? 0); [discriminate|]. destruct (_ <? _); [discriminate|].
+  inv_bind H. inversion H; subst. reflexivity.
+Qed.
+
+Lemma maybe_append_commit_mono lg i t c ents lg' r :
+  maybe_append lg i t c ents = Ok (lg', r) -> committed lg <= committed lg'.
+Proof.
+  unfold maybe_append. intros H. inv_bind H. destruct (negb x); [inversion H; subst; lia|].
+  inv_bind H. inv_bind H. destruct (u64_max <? _); [discriminate|]. inv_bind H.
+  inversion H; subst lg' r; clear H.
+  assert (E1 : committed x1 = committed lg).
+  { destruct (x0 =? 0); [inversion Hx1; reflexivity|].
+    destruct (x0 <=? committed lg); [discriminate|]. destruct (i =? u64_max); [discriminate|].
+    destruct (x0 <? i + 1); [discriminate|]. destruct (_ <? _); [discriminate|].
+    inv_bind Hx1.
+    match goal with Hla : log_append _ _ = Ok ?p |- _ =>
+      destruct p as [la xa]; cbn [fst] in Hx1; apply log_append_committed in Hla;
+      destruct (_ <? persisted la); inversion Hx1; subst; cbn; exact Hla end. }
+  apply commit_to_mono in Hx2. lia.
+Qed.
+
+Lemma send_log r m r' : send r m = Ok r' -> r_log r' = r_log r.
+Proof. intros H. apply send_msgs_only in H. apply msgs_only_log. exact H. Qed.
+
+Lemma handle_append_entries_commit_mono r m r' :
+  handle_append_entries r m = Ok r' -> committed (r_log r) <= committed (r_log r').
+Proof.
+  unfold handle_append_entries. intros H.
+  destruct (negb (r_pending_request_snapshot r =? INVALID_INDEX)).
+  { unfold send_request_snapshot in H. inv_bind H. destruct x; [|discriminate].
+    rewrite (send_log _ _ _ H). lia. }
+  destruct (m_index m <? committed (r_log r)). { rewrite (send_log _ _ _ H). lia. }
+  inv_bind H. destruct x as [l' res]. apply maybe_append_commit_mono in Hx.
+  destruct res as [[a b]|].
+  - rewrite (send_log _ _ _ H). exact Hx.
+  - inv_bind H. destruct x as [hi [ht|]]; [|discriminate]. rewrite (send_log _ _ _ H). exact Hx.
+Qed.
+
+Lemma handle_heartbeat_commit r m r' :
+  handle_heartbeat r m = Ok r' ->
+  committed (r_log r) <= committed (r_log r') /\ m_commit m <= committed (r_log r').
+Proof.
+  unfold handle_heartbeat. intros H. inv_bind H. apply commit_to_mono in Hx.
+  assert (E : r_log r' = x).
+  { destruct (negb _).
+    - unfold send_request_snapshot in H. inv_bind H. destruct x0; [|discriminate].
+      rewrite (send_log _ _ _ H). reflexivity.
+    - rewrite (send_log _ _ _ H). reflexivity. }
+  rewrite E. exact Hx.
+Qed.
+
+(* a follower of term T handling same-term appends and heartbeats: its commit index never
+   goes back, and reaches the commit index of every heartbeat *)
+Lemma follower_steps_commit T : forall q F F',
+  T <> 0 -> r_state F = Follower -> r_term F = T ->
+  Forall (fun m => m_term m = T /\ (m_type m = MsgAppend \/ m_type m = MsgHeartbeat)) q ->
+  steps F q = Ok F' ->
+  committed (r_log F) <= committed (r_log F') /\
+  (forall x, In x q -> m_type x = MsgHeartbeat -> m_commit x <= committed (r_log F')).
+Proof.
+  induction q as [|m t IH]; intros F F' HT Hs Ht Hall H; cbn [steps] in H.
+  - assert (F' = F) by congruence. subst F'. split; [lia|]. intros x [].
+  - inv_bind H. destruct x as [F1 c1]. cbn [fst] in H.
+    pose proof (Forall_inv Hall) as (Hm & Hty). pose proof (Forall_inv_tail Hall) as Hrest.
+    destruct (step_follower_same_term T HT F m Hs Ht Hm) as [EA EH].
+    assert (H1 : committed (r_log F) <= committed (r_log F1) /\
+                 (m_type m = MsgHeartbeat -> m_commit m <= committed (r_log F1)) /\
+                 r_state F1 = Follower /\ r_term F1 = T).
+    { destruct Hty as [Hty|Hty].
+      - rewrite (EA Hty) in Hx. inv_bind Hx. assert (x = F1) by congruence. subst x.
+        pose proof (handle_append_entries_commit_mono _ _ _ Hx0) as Hmono.
+        apply handle_append_entries_st in Hx0. destruct Hx0 as [S1 S2].
+        split; [exact Hmono|]. split; [intros E; rewrite Hty in E; discriminate E|].
+        split; [rewrite S1; exact Hs|rewrite S2; exact Ht].
+      - rewrite (EH Hty) in Hx. inv_bind Hx. assert (x = F1) by congruence. subst x.
+        pose proof (handle_heartbeat_commit _ _ _ Hx0) as [Hmono Hc].
+        apply handle_heartbeat_st in Hx0. destruct Hx0 as [S1 S2].
+        split; [exact Hmono|]. split; [intros _; exact Hc|].
+        split; [rewrite S1; exact Hs|rewrite S2; exact Ht]. }
+    destruct H1 as (M1 & C1 & S1 & S2).
+    destruct (IH F1 F' HT S1 S2 Hrest H) as [M2 C2]. split; [lia|].
+    intros x [->|Hin] Hx'; [specialize (C1 Hx'); lia|apply C2; assumption].
+Qed.
